@@ -51,7 +51,7 @@ SKIP = Skip()
 def import_bionumpy():
     sys.path.insert(0, str(REPO))
     import logging
-    logging.disable(logging.WARNING)
+    logging.disable(logging.CRITICAL)      # the package logs (also at ERROR level, before re-raising); observations are return values and exceptions
     with contextlib.redirect_stderr(open(os.devnull, "w")):
         import bionumpy  # noqa
     f = Path(bionumpy.__file__).resolve()
